@@ -247,7 +247,7 @@ def run(H):
     H.assumptions += ['exact real arithmetic', 'group inputs valid (|q|=1, s>0)', 'the autograd engine applies the chain rule correctly (trusted), '
                       'so per-Function exactness implies exactness of every well-typed composition']
     H.bounds += ['single items; programs: every Function once + two depth-3 compositions',
-                 'Exp/Log Jacobians: quick = SO3/so3 family, thorough adds SE3, RxSO3 and the Sim3 truncation identities']
+                 'Exp/Log/Retr/Jinvp Jacobians: quick = SO3/so3 family, thorough adds SE3 and RxSO3 (the Sim3 series-truncation identities are not attempted: every obligation came back unknown within any affordable cap)']
     only = getattr(H, 'only', None)
     for g in GROUPS:
         B = builders(g)
@@ -263,14 +263,14 @@ def run(H):
             except Exception as e:
                 import traceback; traceback.print_exc()
                 H.engine_error(nm, e)
-    for g in (['SO3'] if H.quick else GROUPS):
+    for g in (['SO3'] if H.quick else ['SO3', 'SE3', 'RxSO3']):
         B = builders(g)
         for opname in ('Exp', 'Log', 'Retr', 'Jinvp'):
             nm = 'C04/%s/%s' % (g, opname)
             if only and only not in nm:
                 continue
             try:
-                check_jacobian(H, nm, B[opname], key='C04/%s.backward' % opname, use_cert=False, timeout=(30 if H.quick else 120),
+                check_jacobian(H, nm, B[opname], key='C04/%s.backward' % opname, use_cert=False, timeout=(30 if H.quick else 45),
                                track_poison=True)
             except Exception as e:
                 import traceback; traceback.print_exc()
